@@ -24,6 +24,8 @@ Flags == [i1 : BOOLEAN, i2 : BOOLEAN, order12 : BOOLEAN, pd1 : BOOLEAN, ef1 : BO
           efn : BOOLEAN, dotenvn : BOOLEAN, pdn : BOOLEAN,
           csib : BOOLEAN]     \* i1 also includes a file whose path differs from its own only by letter case (INC1/compose.yaml): no cycle     \* on the nested include i1 -> n1: declared env_file, a .env beside n1, project_directory
 Sane(f) == /\ (f.i1 \/ f.i2)
+           /\ ~(f.parentV /\ f.parentEmpty)
+           /\ (f.parentEmpty => (f.dotenv1 \/ f.ef1 \/ f.dotenvn \/ f.efn) /\ f.redef = "none" /\ f.cycle = "none" /\ ~f.cenv /\ ~f.csib)
            /\ (f.pd1 => f.i1 /\ ~f.n1from1 /\ f.cycle = "none")          \* with project_directory = root the nested relative include would not resolve
            /\ (f.ef1 => f.i1) /\ (f.n1from1 => f.i1) /\ (f.n1from2 => f.i2)
            /\ (f.redef \in {"same", "different", "bare-same", "bare-different"} => f.i1 /\ f.i2 /\ ~f.order12)
@@ -61,8 +63,11 @@ Universe(f) ==
                        defs |-> {D("services", "sn", 1), D("volumes", "vn", 1)},
                        includes |-> (IF f.cycle = "n1-main" THEN <<Inc("main", NoPd, NoEf)>> ELSE IF f.cycle = "n1-i1" THEN <<Inc("i1", NoPd, NoEf)>> ELSE <<>>)]]
 \* with project_directory the path is written relative to the including project directory: pd = <<>> means "."
-Init == \E f \in Flags : Sane(f) /\ Covering(f) /\
-          sc = [flags |-> f, exp |-> Load(Universe(f), "main", IF f.parentV THEN [v \in {"V"} |-> "parent"] ELSE NoEnv)]
+\* parentEmpty: the parent environment defines V as the empty string - still a definition, it wins over the files of the includes
+\* (a flag added outside the record set, which TLC enumerates as a whole)
+WithEmpty(f0, pe) == [k \in DOMAIN f0 \cup {"parentEmpty"} |-> IF k = "parentEmpty" THEN pe ELSE f0[k]]
+Init == \E f0 \in Flags : \E pe \in BOOLEAN : LET f == WithEmpty(f0, pe) IN Sane(f) /\ Covering(f) /\
+          sc = [flags |-> f, exp |-> Load(Universe(f), "main", IF f.parentV THEN [v \in {"V"} |-> "parent"] ELSE IF f.parentEmpty THEN [v \in {"V"} |-> ""] ELSE NoEnv)]
 Next == UNCHANGED sc
 Spec == Init /\ [][Next]_sc
 
